@@ -125,6 +125,29 @@ std::vector<T3> readPlan(const Instance& m) {
 	}
 	return v;
 }
+// the same walk through the editable handle (kind 1) and through a const-qualified editable handle (kind 2)
+std::vector<T3> readPlanVia(Instance& m, const int kind) {
+	std::vector<T3> v;
+	unsigned guard = 0;
+	if (kind == 1) {
+		auto plan = m.plan();
+		for (auto it = plan.begin(); it; ++it) {
+			T3 t{it->origin, it->destination, false, 0};
+			if (it->payload()) { t.hasPay = true; t.pay = *it->payload(); }
+			v.push_back(t);
+			if (++guard > 600) break;
+		}
+	} else {
+		const auto plan = m.plan();
+		for (auto it = plan.begin(); it; ++it) {
+			T3 t{it->origin, it->destination, false, 0};
+			if (it->payload()) { t.hasPay = true; t.pay = *it->payload(); }
+			v.push_back(t);
+			if (++guard > 600) break;
+		}
+	}
+	return v;
+}
 bool same(const std::vector<T3>& a, const std::vector<T3>& b) {
 	if (a.size() != b.size()) return false;
 	for (size_t i = 0; i < a.size(); ++i) if (a[i].o != b[i].o || a[i].d != b[i].d || a[i].hasPay != b[i].hasPay || (a[i].hasPay && a[i].pay != b[i].pay)) return false;
@@ -133,6 +156,13 @@ bool same(const std::vector<T3>& a, const std::vector<T3>& b) {
 void expectPlan(const Instance& m, const std::vector<T3>& want, const char* prop, const std::string& key, const std::string& where) {
 	const std::vector<T3> got = readPlan(m);
 	if (!same(got, want)) viol(prop, key, where + ": plan iterates as " + planStr(got) + ", expected " + planStr(want));
+	for (int kind = 1; kind <= 2; ++kind) {
+		const std::vector<T3> via = readPlanVia(const_cast<Instance&>(m), kind);   // every instance here is a non-const object
+		if (!same(via, want)) {
+			viol(prop, key + (kind == 1 ? "|editable-handle" : "|const-editable-handle"), where + ": plan iterates as " + planStr(via).substr(0, 400) + " through the " + (kind == 1 ? "editable" : "const-qualified editable") + " handle, expected " + planStr(want));
+			if (via.size() > 600) viol("C18", "plan-traversal-does-not-end", where + ": a traversal of a plan of " + std::to_string(want.size()) + " tasks was still going after 600 steps");
+		}
+	}
 	if (static_cast<bool>(m.plan()) != !want.empty()) viol("C10", "plan-bool-disagrees-with-content", where + ": bool(plan)=" + std::to_string(static_cast<bool>(m.plan())) + " with " + std::to_string(want.size()) + " tasks expected");
 }
 
